@@ -21,6 +21,7 @@ TRUSTED = ['rustc const evaluation + MIR construction (nightly)', 'pdb-facts dri
 
 def run(ctx):
     shared.chain_link_markers_agree(ctx, '9m')
+    codec_refusal_is_not_a_panic(ctx)
     F = ctx.F
     C = {k: v for k, v in F.consts.items()}
     def ci(name):
@@ -357,3 +358,33 @@ def compression_flag(ctx, F):
                     why = '' if on_true else 'decompress sits on the FALSE edge of the flag'
             ctx.ob('8b decompress-iff-flag %s #%d' % (b.path, nd), 'K3-guard', b.path, 'Compress::decompress is called on the true edge of the compressed flag returned with the bytes', ok, why, b.loc(d_))
     ctx.ob('8b0 decompress-sites', 'anchor', '-', 'the decompression sites outside the compress module were found', nd >= 4, 'found %d' % nd)
+
+
+# unwrap/expect inside an encoder: reviewed one by one. (F68: `lz4::block::compress(..).unwrap()` had been reviewed as "cannot fail" in the
+# C16 table - the codec refuses inputs above 0x7E000000 bytes, and the refusal panicked the log worker after the commit was accepted.)
+ENCODER_UNWRAP_OK = [
+    ('compress::snappy::Snappy::compress', r'Write::write_all$', 'the frame encoder writes into a Vec: no I/O, no size limit below the address space'),
+]
+
+
+def codec_refusal_is_not_a_panic(ctx):
+    """values of every size: the compression step of planning runs in the log worker, after the commit was accepted; a codec that
+    refuses its input must not panic there (the value would be lost). No unwrap / expect on a fallible foreign result in an encoder."""
+    import errdisc
+    F = ctx.F
+    n = 0
+    for b, bi, t in errdisc.fallible_sites(F):
+        if not (b.path.startswith('compress::') and re.search(r'::compress(::\{closure#\d+\})*$', b.path)):
+            continue
+        n += 1
+        sinks = errdisc.classify(b, bi, t)
+        callee = (t.get('r') or t.get('f') or '?')
+        if 'unwrap' in sinks:
+            hit = [why for fn, rx, why in ENCODER_UNWRAP_OK if b.path.startswith(fn) and re.search(rx, callee)]
+            ctx.ob('10a codec-refusal-is-not-a-panic %s <- %s' % (b.path, callee.split('::')[-1]), 'K7-unwrap-audit', b.path,
+                   'an encoder does not unwrap the result of the codec: a refused input (size limit) is stored uncompressed' + (' (reviewed: %s)' % hit[0] if hit else ''),
+                   bool(hit), 'unwrap of %s' % callee, b.loc(bi))
+        else:
+            ctx.ob('10a codec-refusal-is-not-a-panic %s <- %s' % (b.path, callee.split('::')[-1]), 'K7-unwrap-audit', b.path,
+                   'an encoder does not unwrap the result of the codec: a refused input (size limit) is stored uncompressed', True, '')
+    ctx.ob('10a0 encoder-anchor', 'anchor', 'compress::', 'the encoders call at least two fallible foreign functions (lz4, snappy)', n >= 2, 'fallible call sites in compress::*::compress: %d' % n)
